@@ -41,6 +41,7 @@ TB = [
     "translator c20readers: 59 source definitions pinned to the text the reader models were written against (harness/translators/c20_pins.json) + literal slots (header prefix, required keys, coltype tables, versions, storage back ends, loader table, swallowed classes)",
     "hand-written models of the manifest / picklist / LCA / SBT readers and of the loader chain over the answers of trusted decoders (UTF-8 text layer, csv module, json module, os.path / file system, ast.literal_eval as an oracle with a stated exception range); compared with the real readers on every mutated file of those kinds",
     "sys.settrace line counts inside the readers' own frames as the measured counterpart of the models' work count",
+    "referential damages: the oracle 'an intact index never silently loses a listed signature' is testing over 8 fixed signatures x 7 formats x all single-file damages; the theorem part is the lazy node loader (Model/SbtNodes.lean: a storage failure is re-raised, an empty substitute filter prunes) with the swallowed classes re-read by the translator",
     "NOT modelled, only observed by crash-isolated workers: memory safety of native code, serde_json / zip / gzip / sqlite / csv decoders, the allocator, CPython",
 ]
 AS = ["PARTIAL by nature: the hand-written readers' decisions are inside theorems (over decoded input); memory safety, the decoders and everything native is differential testing in isolated workers",
@@ -57,6 +58,12 @@ RULE = ("for each of 11 file kinds (sig JSON, sig.gz, zip, sqldb, manifest CSV, 
         "(generic loader + iteration + a search, manifest, picklist, taxonomy loaders) in a worker; after a failed load a sentinel sketch must still have "
         "the right md5; for modelled kinds the real reader is also called directly (facts + executed-line count) and the Lean model is run on the decoders' "
         "answers for the same file; every load_file_as_index call is recorded loader by loader and replayed through the chain model; "
+        "damage class 'referential': seven multi-file collections of 8 signatures with pairwise disjoint hashes (SBT json+directory, SBT zip, zip "
+        "collection with manifest, directory of .sig files, standalone manifest CSV and SQLite manifest pointing at files, list of paths) whose index / "
+        "manifest stays intact while every referenced file or zip member in turn is deleted, renamed, truncated to 0 bytes, swapped with another, or has "
+        "one byte of its name flipped in the zip central directory / local header; after a successful load a fixed battery runs (len, signatures(), and "
+        "for each listed signature a search, a gather step, a prefetch, on a shared and on a fresh index) and no answer may silently omit a signature the "
+        "index / manifest lists: either an ordinary exception or the signature; "
         "non-trivial = the file differs from the seed and the loader got past opening it (outcome recorded); distinct = distinct mutated byte strings")
 
 PER_FILE_TIMEOUT = 30
@@ -427,6 +434,48 @@ def huge_key(doc):
     return False
 
 
+def ref_oracle(rm, o, b):
+    """referential damage, index / manifest intact.  Acceptable: an ordinary exception (at load or at the query), or the
+    listed signature reported.  Not acceptable: an answer that silently omits a signature the index / manifest lists.
+    -> (signature, text) or None"""
+    kind, dmg, tcls = rm["refkind"], rm["damage"], rm["target_class"]
+    what = f"{dmg} {rm['target']}" + (f" <-> {rm['other']}" if rm.get("other") else "")
+    if dmg == "intact":
+        if o is None or not o.startswith("ok") or b is None:
+            return None            # reported as seed-rejected below
+        bad = [k for k in ("search", "gather", "prefetch", "search_fresh") if set(b.get(k) or ["?"]) != {"F"}]
+        if bad or b.get("signatures") != rm["expected"]:
+            return (f"C20:{kind}:intact-collection-wrong-answers", f"the undamaged {kind} seed collection does not answer for its own signatures: {b}")
+        return None
+    if o is None or not o.startswith("ok") or b is None:
+        return None                # loud (or a crash / timeout, reported by the crash oracle)
+    if tcls == "manifest":
+        detail = "manifest-unreadable"
+    elif dmg == "swap":
+        detail = "swap"
+    else:
+        detail = f"{dmg}-{tcls}"
+    sig = f"C20:{kind}:silently-missing-signature:{detail}"
+    exp = rm["expected"]
+    sg = b.get("signatures")
+    if isinstance(sg, list):
+        missing = [n for n in exp if n not in sg]
+        if missing:
+            return (sig, f"{kind} with intact index, {what}: loads, len()={b.get('len')}, and signatures() yields {len(sg)} of the "
+                         f"{len(exp)} listed signatures without any error (missing {','.join(missing)})")
+    for op in ("search", "gather", "prefetch", "search_fresh"):
+        res = b.get(op) or []
+        for n, r in zip(referential_names(), res):
+            if n in exp and r == "M":
+                return (sig, f"{kind} with intact index, {what}: {op} for {n} returns without error and without {n}, "
+                             f"although the index lists it ({op}: {' '.join(res)})")
+    return None
+
+
+def referential_names():
+    return [f"genome{i}" for i in range(8)]
+
+
 def main():
     chk = common.Check("C20", TB, AS)
     pkg = chk.build()
@@ -446,7 +495,9 @@ def main():
         seeds = [l.split(" ", 1) for l in r.stdout.strip().split("\n") if " " in l]
         jobs = []
         meta = []       # (kind, bytes, suffix, extra, targeted?)
-        if chk.replay:
+        if chk.replay and "refkind" in json.load(open(chk.replay if os.path.isabs(chk.replay) else os.path.join(common.VERIF, chk.replay)))["data"]:
+            seeds = []              # a referential replay: rebuilt below from (refkind, damage, target, other)
+        elif chk.replay:
             p = chk.replay if os.path.isabs(chk.replay) else os.path.join(common.VERIF, chk.replay)
             d = json.load(open(p))["data"]
             kind, data = d["kind"], base64.b64decode(d["bytes_b64"])
@@ -529,6 +580,38 @@ def main():
                 jobs.append(("pathlist", pth, None))
                 meta.append(("pathlist", open(pth, "rb").read(), ".txt", None, True))
             kinds["pathlist"] = 2
+        # ---- damage class 'referential': index / manifest intact, a referenced file or zip member damaged
+        import referential
+        ref_meta = {}
+        replay_ref = None
+        if chk.replay:
+            rd_ = json.load(open(chk.replay if os.path.isabs(chk.replay) else os.path.join(common.VERIF, chk.replay)))["data"]
+            if "refkind" in rd_:
+                replay_ref = rd_
+                jobs, meta = [], []
+        if seeds or replay_ref:
+            refroot = os.path.join(tmp, "refseed")
+            r = subprocess.run([common.PY, os.path.join(common.VERIF, "harness", "c20", "referential.py"), refroot],
+                               env=dict(os.environ, PYTHONPATH=pkg), stdout=subprocess.PIPE, stderr=subprocess.PIPE, text=True)
+            if r.returncode != 0:
+                chk.exit_tool("cannot create the referential seed collections: " + r.stderr[-1500:])
+            nref = 0
+            for rkind in referential.KINDS:
+                todo = [("intact", None, None, None)] + referential.plan(refroot, rkind, chk.rng, chk.tier == "thorough")
+                if replay_ref:
+                    todo = [(replay_ref["damage"], replay_ref["target"], replay_ref.get("other"), replay_ref.get("target_class"))] \
+                        if replay_ref["refkind"] == rkind else []
+                for j, (dmg, target, other, tcls) in enumerate(todo):
+                    dst = os.path.join(tmp, f"ref_{rkind}_{j}")
+                    path = referential.instantiate(refroot, rkind, dst)
+                    if dmg != "intact":
+                        referential.apply(rkind, dst, dmg, target, other)
+                    ref_meta[len(jobs)] = {"refkind": rkind, "damage": dmg, "target": target, "other": other, "target_class": tcls,
+                                           "expected": referential.expected_names(rkind, dmg, target) if dmg != "intact" else referential.names()}
+                    jobs.append(("ref", path, None))
+                    meta.append(("ref-" + rkind, b"", "", None, True))
+                    nref += 1
+            kinds["referential"] = nref
         # distribute over workers
         nw = 16
         chunks = [list(range(i, len(jobs), nw)) for i in range(nw)]
@@ -557,6 +640,8 @@ def main():
         nv = 0
         for i, (job, (k2, data, suffix, extra, tgt), o) in enumerate(zip(jobs, meta, outcome)):
             kind, path = job[0], job[1]
+            if kind == "ref":
+                kind = k2
             chk.cov["evaluations"] += 1
             cls = (o or "none").split(" ")[0]
             stats.setdefault(kind, {}).setdefault(cls if cls != "exc" else o, 0)
@@ -568,6 +653,16 @@ def main():
                   "how": "write the bytes to a file with this suffix and load it as harness/c20/worker.py does"}
             facts = (result[i] or {}).get("facts") or {}
             direct_excs = [v for k, v in facts.items() if isinstance(v, str) and v.startswith("exc ")]
+            if i in ref_meta:
+                rm = ref_meta[i]
+                rp = dict(rm, outcome=o, battery=facts.get("battery"),
+                          how="python harness/c20/referential.py <dir> builds the seed collections with the current code; "
+                              "referential.instantiate(<dir>, refkind, <copy>) + referential.apply(refkind, <copy>, damage, target, other); "
+                              "then load_file_as_index(<copy>/<entry>) and search / best_containment / prefetch for each genome<i>")
+                is_seed = rm["damage"] == "intact"
+                verdict = ref_oracle(rm, o, facts.get("battery"))
+                if verdict is not None:
+                    chk.add_violation("oracle", verdict[0], verdict[1], rp)
             if o is None or o.startswith(("signal", "timeout", "died")):
                 nv += 1
                 detail = ""
@@ -636,6 +731,32 @@ def main():
                                   f"reader model says `{m[:80]}` but the implementation says `{o[:80]}` for a {len(meta[i][1])}-byte nodegraph file",
                                   {"kind": "nodegraph", "suffix": ".ng", "bytes_b64": base64.b64encode(meta[i][1]).decode(), "model": m, "impl": o},
                                   concrete=False)
+        # the lazy node loader: model (with the swallow list the translator reads) vs the battery on node files the storage cannot produce
+        nd_model = dict(zip(("sbtjson", "sbtzip"), common.run_model("c20r", "# case\nnd fs FileNotFoundError\nnd zip ValueError\n")[1:]))
+        nd_cmp = {"compared": 0, "agreed": 0}
+        for i, rm in ref_meta.items():
+            if rm["target_class"] != "node" or rm["damage"] not in ("delete", "rename", "cdflip", "lhflip"):
+                continue
+            b = ((result[i] or {}).get("facts") or {}).get("battery")
+            if not b or not (outcome[i] or "").startswith("ok"):
+                continue
+            m = nd_model.get(rm["refkind"], "")
+            entries = [e for op in ("search", "gather", "prefetch", "search_fresh") for e in (b.get(op) or [])]
+            nd_cmp["compared"] += 1
+            chk.cov["traces_validated_against_impl"] += 1
+            if m.startswith("exc "):
+                ok = set(entries) <= {"F", "E:" + m[4:]} and any(e.startswith("E:") for e in entries)
+            elif m == "fresh":
+                ok = set(entries) <= {"F", "M"}
+            else:
+                ok = False
+            if ok:
+                nd_cmp["agreed"] += 1
+            else:
+                chk.add_violation("correspondence", "C20:corr:sbt-node-loader",
+                                  f"node-loader model says `{m}` for a {rm['refkind']} whose node file {rm['target']} is gone ({rm['damage']}), "
+                                  f"the queries say {sorted(set(entries))}", dict(rm, battery=b, model=m), concrete=False)
+        chk.cov["node_loader_model"] = nd_cmp
         corr = {t: {"compared": 0, "agreed": 0, "model_declined": 0, "ok": 0, "exc": 0, "work_checked": 0, "classes": {}} for t in READERS}
         decl = {}
         for (i, tag, line), m in zip(ops, rmodel):
